@@ -218,6 +218,7 @@ def bn_walk_task(task):
 
     walks, mom, seed, dtype_name = task[:4]
     variant = task[4] if len(task) > 4 else "direct"
+    eps = task[5] if len(task) > 5 else 1e-5
     dtype = getattr(torch, dtype_name)
     tol = 2e-5 if dtype == torch.float32 else 1e-10
     B = {i + 1: torch.tensor(b, dtype=dtype) for i, b in enumerate(BN_BATCHES)}
@@ -225,7 +226,7 @@ def bn_walk_task(task):
     g = torch.Generator().manual_seed(seed)
 
     def fresh():
-        m = BatchNorm(2, momentum=float(mom))
+        m = BatchNorm(2, eps=eps, momentum=float(mom))
         with torch.no_grad():
             m.unconstrained_weight.copy_(torch.tensor([0.3, 1.2]))
             m.bias.copy_(torch.tensor([-0.7, 0.4]))
@@ -263,7 +264,7 @@ def bn_walk_task(task):
                 exc = e
 
             def fail(clause, detail):
-                fails.append({"layer": "BatchNorm", "clause": clause, "detail": detail, "history": list(hist), "seed": seed, "momentum": [mom.numerator, mom.denominator], "dtype": dtype_name, "variant": variant})
+                fails.append({"layer": "BatchNorm", "clause": clause, "detail": detail, "history": list(hist), "seed": seed, "momentum": [mom.numerator, mom.denominator], "dtype": dtype_name, "variant": variant, "eps": eps})
 
             res = dst["res"]
             nfail = len(fails)
@@ -320,7 +321,7 @@ def main(run, replay=None):
         c = replay["case"]
         # re-run the recorded history alone through the lock-step driver
         walks = _history_walk(c)
-        out = an_walk_task((walks, c["seed"], c.get("variant", "direct"))) if c["layer"] == "ActNorm" else bn_walk_task((walks, Fraction(*c["momentum"]), c["seed"], c.get("dtype", "float32"), c.get("variant", "direct")))
+        out = an_walk_task((walks, c["seed"], c.get("variant", "direct"))) if c["layer"] == "ActNorm" else bn_walk_task((walks, Fraction(*c["momentum"]), c["seed"], c.get("dtype", "float32"), c.get("variant", "direct"), c.get("eps", 1e-5)))
         for f in out["fails"]:
             run.violation({"layer": f["layer"], "clause": f["clause"]}, "replayed: " + f["detail"], c)
         return
@@ -362,7 +363,9 @@ def main(run, replay=None):
         for e in g.edges:
             if e[2] in ("Forward", "Inverse", "SaveLoadFresh"):
                 run.nontrivial.add((name,) + e)
-        tasks = [(ch, mom, run.seed, dt, variant) for dt in (["float32", "float64"] if thorough else ["float32"]) for variant in VARIANTS for ch in chunks(walks, 6)]
+        # the layer's own eps: the default and a large one (alternating over the chunks; thorough: both)
+        tasks = [(ch, mom, run.seed, dt, variant, e) for dt in (["float32", "float64"] if thorough else ["float32"]) for vi, variant in enumerate(VARIANTS) for ci, ch in enumerate(chunks(walks, 6))
+                 for e in ((1e-5, 0.1) if thorough else ((1e-5, 0.1)[(ci + vi + run.seed) % 2],))]
         bfails = []
         if True:
             for out in pmap(bn_walk_task, tasks, nproc):
